@@ -212,6 +212,11 @@ def hostile_bytes_cases(rng, tier):
 def gen_cases(rng, tier):
     yield from _gen_cases_c12(rng, tier)
     yield from hostile_bytes_cases(rng, tier)
+    # the transport reports a failed write at poll_flush (buffering transports do): the handler goes on in four ways; the task must end
+    from fvgen import case
+    for variant in (0, 1, 2, 3):
+        for fail_at in (1, 2, 3):
+            yield case("flush_fault", [variant, fail_at]), ["flush-fault"]
     yield from close_readahead_fault_cases(rng, tier)
     yield from swallowed_flush_error_cases(rng, tier)
     yield from mixed_order_cases(rng, tier)
@@ -222,10 +227,12 @@ def nontrivial(line, tags):
 
 
 def min_classes(tier):
-    return {"eof": 2000, "read-error": 300, "write-fault": 300, "write-fault-aborted-kind": 60, "close-readahead-fault": 16, "swallowed-flush-error-then-write": 12, "mixed-order": 400, "hostile-bytes": 40}
+    return {"eof": 2000, "read-error": 300, "write-fault": 300, "write-fault-aborted-kind": 60, "close-readahead-fault": 16, "swallowed-flush-error-then-write": 12, "mixed-order": 400, "hostile-bytes": 40, "flush-fault": 12}
 
 
 def outcome(line, out):
+    if line.startswith("flush_fault "):
+        return "returned" if out.strip() == "1" else "panic"
     o = parse_out(out)
     if o is None:
         return "crash"
@@ -234,6 +241,8 @@ def outcome(line, out):
 
 def signature(line, impl_line):
     """classifies a non-terminating run for known-finding matching"""
+    if line.startswith("flush_fault "):
+        return ""
     o = parse_out(impl_line)
     if o is None or not o or o[0][:1] != [1]:
         return ""
@@ -265,6 +274,9 @@ def _header_offsets(w):
 
 
 def oracle(line, impl_line):
+    if line.startswith("flush_fault "):
+        return True if impl_line.strip() == "1" else ("after a failed flush of the transport the connection task did not end: it hangs on the "
+                                                      "output lock, panics or spins")
     o = parse_out(impl_line)
     if o is None or o[0] == [18446744073710440504]:
         return "connection task crashed or panicked"
